@@ -41,6 +41,17 @@ func schedScenarios(prop, tier string) []*Scenario {
 		return c15Scenarios(tier)
 	case "C18":
 		return c18Scenarios(tier)
+	case "C16":
+		// the size the calculator reports for a structure must be the size of THAT structure whatever other goroutines
+		// have it measure at the same moment (the encoder's output for it does not depend on them): scenarios K and K2
+		// of C12 - one reporter, two reporters allocating concurrently - judged here under this property
+		var out []*Scenario
+		for _, sc := range c12Scenarios(tier) {
+			c := *sc
+			c.Property = "C16"
+			out = append(out, &c)
+		}
+		return out
 	}
 	return nil
 }
